@@ -547,6 +547,9 @@ fn program_text(id: &str) -> String {
     match source_of(id) {
         Some(input) => {
             let mut t = String::from("; program:");
+            if !input.defines.is_empty() {
+                t = format!("; client defines (in this order): {:?}; program:", input.defines);
+            }
             for (n, f) in &input.files {
                 t.push_str(&format!(" [{}] <<{}>>", n, clip(f, if id.starts_with("cycle:") || id.starts_with("fix3:") || id.starts_with("wave:") { 6000 } else { 1500 })));
             }
